@@ -75,6 +75,8 @@ def make_election(rng, o=None):
             cls = classes[int(rng.integers(0, n_class))]
             ceff = rng.normal(0, 0.04) * o.get("county_effect_scale", 1.0)
             n_here = 1 if geo_county else max(1, int(per_county + rng.integers(-1, 2)))
+            if o.get("county_size_spread") and not geo_county:
+                n_here = max(1, int(round(per_county * np.exp(rng.normal(0, o["county_size_spread"])))))
             # a county is split over one or two districts
             dists = [choice(rng, pool)]
             if district and rng.random() < 0.4 and len(pool) > 1:
